@@ -159,7 +159,17 @@ func c14RandRx(r *rng) string {
 		}
 		return s
 	}
-	n := r.intn(9)
+	if r.chance(50) {
+		// a sequence of tokens
+		toks := []string{"a", "b", "ab", ".", "^", "$", "|", "(", ")", "(?:", "(?i)", "*", "+", "?", "*?", "+?", "??", "{2}", "{1,3}", "{2,}", "{0}", "{1}", "{,3}", "{", "}", "{2", "{2,x}",
+			"\\.", "\\d", "\\(", "\\", "[", "]", "[a]", ":", "-", ",", "1", "0", " ", "A"}
+		var b strings.Builder
+		for n := r.intn(8); n > 0; n-- {
+			b.WriteString(pick(r, toks))
+		}
+		return b.String()
+	}
+	n := r.intn(13)
 	b := make([]byte, n)
 	for i := range b {
 		b[i] = c14RxAlphabet[r.intn(len(c14RxAlphabet))]
